@@ -23,6 +23,7 @@ const CAP: usize = 1 << 21;
 const MASK: usize = CAP - 1;
 const QCAP: usize = 1 << 16;
 const QBYTES_MAX: usize = 256 << 20;
+const HUGE_ALLOC: usize = 2 << 30;
 
 const ST_EMPTY: u8 = 0;
 const ST_LIVE: u8 = 1;
@@ -216,6 +217,13 @@ unsafe fn drain_quarantine(keep: usize) {
 
 unsafe impl GlobalAlloc for Tracker {
     unsafe fn alloc(&self, layout: Layout) -> *mut u8 {
+        // No workload of the harness needs a block this large; a library that asks for one is acting on
+        // garbage (e.g. a length read after a swallowed I/O error). Refuse it: the resulting abort is
+        // reported through the crash path with an exact replay, instead of junk-filling terabytes of
+        // overcommitted memory until the kernel kills the worker.
+        if layout.size() > HUGE_ALLOC {
+            return std::ptr::null_mut();
+        }
         let p = System.alloc(layout);
         if p.is_null() {
             return p;
